@@ -16,11 +16,13 @@ type c14Variant struct {
 	kind   ref.Kind
 	nocopy bool
 	ptr    bool
+	named  bool // the Go type is a named string / byte-slice type
 }
 
 var c14Variants = []c14Variant{
-	{ref.KString, false, false}, {ref.KString, true, false}, {ref.KString, false, true}, {ref.KString, true, true},
-	{ref.KBinary, false, false}, {ref.KBinary, true, false},
+	{ref.KString, false, false, false}, {ref.KString, true, false, false}, {ref.KString, false, true, false}, {ref.KString, true, true, false},
+	{ref.KBinary, false, false, false}, {ref.KBinary, true, false, false},
+	{ref.KString, true, false, true}, {ref.KBinary, true, false, true}, {ref.KString, true, true, true},
 }
 
 var c14Lens = []int{0, 1, 2, 255, 256, 257, 2048, 5000}
@@ -32,7 +34,7 @@ func c14Core(vs []c14Variant, ids []uint16) *ref.Struct {
 		if v.ptr {
 			req = ref.ReqOptional
 		}
-		f := fd(ids[i], req, &ref.Type{Kind: v.kind, Ptr: v.ptr})
+		f := fd(ids[i], req, &ref.Type{Kind: v.kind, Ptr: v.ptr, Named: v.named})
 		f.NoCopy = v.nocopy
 		s.Fields = append(s.Fields, f)
 	}
@@ -49,7 +51,7 @@ func init() {
 		Phases: func(tier universe.Tier) []*harness.Phase {
 			return []*harness.Phase{{
 				Name: "nocopy-views",
-				Rule: "two-field types: 6x6 variants x 2 id orders x 3 nestings x 8x8 value lengths x 2 wire orders; three-field types: 6^3 variants x 3 nestings x 8 length diagonals x 6 wire orders; distinct by (type, message)",
+				Rule: "two-field types: 9x9 variants (plain/nocopy x value/pointer x plain/named Go type) x 2 id orders x 3 nestings x 8x8 value lengths x 2 wire orders; three-field types: 9^3 variants x 3 nestings x 8 length diagonals x 6 wire orders; distinct by (type, message)",
 				Body: func(c *explore.C) { c14Body(c, tier) },
 			}}
 		},
